@@ -1,4 +1,6 @@
-import VermouthProofs.C15
+import VermouthProofs.C15_Inv
+import VermouthProofs.C15_Order
+import Mathlib.Tactic.Ring
 /-!
 # C15 — elastic-network bonds are exactly the pairs meeting every stated criterion
 
@@ -255,5 +257,150 @@ theorem resEdges_spec (atoms : List Atom) (edges : List (Int × Int)) (ra rb : R
     · cases h
   · rintro ⟨e, he, a, b, ha, hb, rfl, rfl, hne⟩
     exact ⟨e, he, by rw [ha, hb]; simp [hne]⟩
+
+/-! ## length rounding -/
+
+/-- **len5_spec.** `len5Of d2` is a nearest integer to `sqrt d2 / 256 * 1e5`:
+`|len5 - sqrt(d2)·3125/8| ≤ 1/2`, stated without square roots. -/
+theorem len5_spec (d2 : Nat) :
+    (2 * len5Of d2 - 1) * (2 * len5Of d2 - 1) * 64 ≤ 4 * d2 * (3125 * 3125) ∧
+    4 * d2 * (3125 * 3125) ≤ (2 * len5Of d2 + 1) * (2 * len5Of d2 + 1) * 64 :=
+  roundSqrtScaled_spec 3125 8 d2 (by decide)
+
+/-! ## rigid motion -/
+
+/-- **isometry_invariant.** Applying to all coordinates a map `T` of the lattice that preserves squared
+distances (any rotation, reflection, translation) leaves the complete result unchanged: same outcome,
+same bonds in the same order with the same lengths and constants. -/
+theorem isometry_invariant (T : V3 → V3) (hT : ∀ u v, dist2 (T u) (T v) = dist2 u v)
+    (atoms : List Atom) (edges : List (Int × Int)) (p : Params) :
+    run (moveAll T atoms) edges p = run atoms edges p := by
+  unfold run
+  simp only []
+  rw [selAtoms_moveAll, miss_move, nan_move]
+  by_cases h1 : (((selection p.names atoms).map (atomAt atoms)).filter fun a => a.pos = Pos.missing).map (·.key) ≠ []
+  · rw [if_pos h1, if_pos h1]
+  · rw [if_neg h1, if_neg h1]
+    by_cases h2 : (selection p.names atoms).map (atomAt atoms) = []
+    · rw [if_pos (by rw [h2]; rfl), if_pos h2]
+    · rw [if_neg (by simpa using h2), if_neg h2]
+      by_cases h3 : (((selection p.names atoms).map (atomAt atoms)).any fun a => a.pos = Pos.nan) = true
+      · rw [if_pos h3, if_pos h3]
+      · rw [if_neg h3, if_neg h3]
+        have hpos : ∀ i ∈ selection p.names atoms, ∃ x y z, (atomAt atoms i).pos = Pos.at x y z := by
+          intro i hi
+          cases hq : (atomAt atoms i).pos with
+          | missing =>
+            exfalso; apply h1
+            have : (atomAt atoms i).key ∈ (((selection p.names atoms).map (atomAt atoms)).filter
+                fun a => a.pos = Pos.missing).map (·.key) := by
+              simp only [List.mem_map, List.mem_filter, decide_eq_true_eq]
+              exact ⟨atomAt atoms i, ⟨⟨i, hi, rfl⟩, hq⟩, rfl⟩
+            intro e; rw [e] at this; cases this
+          | nan =>
+            exfalso; apply h3
+            simp only [List.any_eq_true, List.mem_map, decide_eq_true_eq]
+            exact ⟨atomAt atoms i, ⟨i, hi, rfl⟩, hq⟩
+          | «at» x y z => exact ⟨x, y, z, rfl⟩
+        rw [mats_moveAll T hT atoms edges p hpos, emit_moveAll]
+
+/-! ## atom order -/
+
+/-- **emit_iff, orientation-free form.** For `minForce ≥ 0` and distinct node keys: the network has a bond
+joining keys `ka`, `kb` (in either orientation) with squared distance `d`, length `l`, constant `k`
+iff the molecule has two atoms with these keys that meet the five criteria, `d` is their squared
+distance, `l` its rounded root and `k` the capped decayed constant.  Nothing on the right-hand side
+mentions node indices or node order. -/
+theorem emit_iff_atoms (atoms : List Atom) (edges : List (Int × Int)) (p : Params) (h0 : 0 ≤ p.minForce)
+    (hk : KeysNodup atoms) (ka kb : Int) (d l : Nat) (k : Rat) :
+    (∃ b ∈ network atoms edges p, joins b ka kb ∧ b.d2 = d ∧ b.len5 = l ∧ b.k = k) ↔
+      ∃ A ∈ atoms, ∃ B ∈ atoms, A.key = ka ∧ B.key = kb ∧ A.key ≠ B.key ∧ CritA (resEdges atoms edges) p A B ∧
+        d = dist2 (vec A.pos) (vec B.pos) ∧ l = len5Of d ∧ k = min (kOf p d) p.base :=
+  bond_iff_atoms atoms edges p h0 hk ka kb d l k
+
+/-- The five criteria are symmetric in the two atoms. -/
+theorem criteria_symmetric (E : List (ResKey × ResKey)) (p : Params) (A B : Atom) :
+    CritA E p A B ↔ CritA E p B A :=
+  ⟨critA_symm E p A B, critA_symm E p B A⟩
+
+/-- **order_invariant.** Listing the atoms of the molecule in another order (any permutation; node keys
+distinct, edges unchanged) gives the same set of bonds as unordered key pairs, with the same lengths
+and force constants.  (Orientation and order of emission follow the node order and do change.) -/
+theorem order_invariant (atoms atoms' : List Atom) (hp : atoms.Perm atoms') (hk : KeysNodup atoms)
+    (edges : List (Int × Int)) (p : Params) (h0 : 0 ≤ p.minForce) (ka kb : Int) (d l : Nat) (k : Rat) :
+    (∃ b ∈ network atoms edges p, joins b ka kb ∧ b.d2 = d ∧ b.len5 = l ∧ b.k = k) ↔
+    (∃ b ∈ network atoms' edges p, joins b ka kb ∧ b.d2 = d ∧ b.len5 = l ∧ b.k = k) := by
+  have hk' : KeysNodup atoms' := (hp.map _).nodup_iff.mp hk
+  rw [emit_iff_atoms atoms edges p h0 hk, emit_iff_atoms atoms' edges p h0 hk',
+    resEdges_perm atoms atoms' hp hk edges]
+  simp only [hp.mem_iff]
+
+/-- If `run` produces bonds at all, they are `network`. -/
+theorem run_bonds_eq (atoms : List Atom) (edges : List (Int × Int)) (p : Params) (bs : List Bond)
+    (h : run atoms edges p = .bonds bs) : bs = network atoms edges p := by
+  unfold run at h
+  simp only [] at h
+  split at h
+  · cases h
+  · split at h
+    · cases h
+    · split at h
+      · cases h
+      · cases h; rfl
+
+/-! ## the known finding F-C15-1 and non-vacuity -/
+
+def rk (c : String) (i : Int) : ResKey := { chain := some c, resid := some i, resname := some "ALA", icode := none }
+
+/-- four backbone beads 1 nm apart on a line, chain bonded -/
+def at4 : List Atom := [
+  { key := 0, name := some "BB", res := rk "A" 1, oldResid := none, pos := .at 0 0 0 },
+  { key := 1, name := some "BB", res := rk "A" 2, oldResid := none, pos := .at 256 0 0 },
+  { key := 2, name := some "BB", res := rk "A" 3, oldResid := none, pos := .at 512 0 0 },
+  { key := 3, name := some "BB", res := rk "A" 4, oldResid := none, pos := .at 768 0 0 }]
+def ed4 : List (Int × Int) := [(0, 1), (1, 2), (2, 3)]
+def pNeg : Params :=
+  { names := ["BB"], sep := 0, upper2 := 230 * 230, base := 700, minForce := -1, kTab := [], dom := .always }
+def pPos : Params :=
+  { names := ["BB"], sep := 1, upper2 := 600 * 600, base := 700, minForce := 0, kTab := [], dom := .chain }
+
+/-- **F-C15-1.** `emit_iff`/`emit_once` need `0 ≤ minForce`: with `minForce = -1` the model (like the
+code) emits self-bonds and bonds beyond the cut-off, with force constant 0. -/
+theorem neg_minforce_witness :
+    pNeg.minForce < 0 ∧ KeysNodup at4 ∧
+    (∃ b ∈ network at4 ed4 pNeg, b.a = b.b) ∧
+    (∃ b ∈ network at4 ed4 pNeg, pNeg.upper2 < b.d2 ∧ b.k = 0) ∧
+    (network at4 ed4 pNeg).length = 10 := by decide
+
+instance (atoms : List Atom) (edges : List (Int × Int)) (p : Params) (i j : Nat) :
+    Decidable (Criteria atoms edges p i j) := by unfold Criteria; infer_instance
+
+/-- non-vacuity of `emit_iff`/`emit_once`/`force_is_capped_decay`: hypotheses satisfiable, both sides true
+for the pair (0, 2), both sides false for the bonded neighbours (0, 1) -/
+example : 0 ≤ pPos.minForce ∧ KeysNodup at4 ∧ Criteria at4 ed4 pPos 0 2 ∧ ¬ Criteria at4 ed4 pPos 0 1 ∧
+    (network at4 ed4 pPos).length = 2 := by decide
+
+/-- non-vacuity of `nan_no_network` -/
+example : run [{ key := 0, name := some "BB", res := rk "A" 1, oldResid := none, pos := .nan },
+               { key := 1, name := some "SC1", res := rk "A" 1, oldResid := none, pos := .missing }] [] pPos
+    = .nanWarning := by decide
+
+/-- non-vacuity of `isometry_invariant`: a rotation by 90° about z followed by a translation -/
+example : ∀ u v : V3, dist2 ((fun w : V3 => (w.2.1 + 5, -w.1, w.2.2 - 3)) u) ((fun w : V3 => (w.2.1 + 5, -w.1, w.2.2 - 3)) v)
+    = dist2 u v := by
+  intro u v
+  unfold dist2
+  congr 1
+  ring
+
+/-- non-vacuity of `order_invariant`: a reversed molecule is a permutation with distinct keys -/
+example : at4.Perm at4.reverse ∧ KeysNodup at4 ∧
+    (network at4.reverse ed4 pPos).map (fun b => (b.a, b.b)) = [(3, 1), (2, 0)] ∧
+    (network at4 ed4 pPos).map (fun b => (b.a, b.b)) = [(0, 2), (1, 3)] :=
+  ⟨(List.reverse_perm at4).symm, by decide, by decide, by decide⟩
+
+/-- non-vacuity of `bfs_correct`: a walk of two steps -/
+example : resConnected (resEdges at4 ed4) 2 (rk "A" 1) (rk "A" 3) = true ∧
+    resConnected (resEdges at4 ed4) 1 (rk "A" 1) (rk "A" 3) = false := by decide
 
 end C15
